@@ -164,6 +164,38 @@ func dirName(a *ref.Frame) string {
 
 // ---- monitor 4: streams -------------------------------------------------------------------------
 
+// poison runs an encode that is expected to FAIL after part of the body was produced (a QUERY whose serial
+// consistency is not a serial level: the length computation accepts it, the encoder refuses it after writing the
+// query string, consistency, flags and values). A codec must not carry anything over from a failed call into the
+// next one: the valid frame encoded right afterwards on the same goroutine must still round-trip.
+func poison(codec frame.RawCodec, v ref.Version, compressed bool, c *mon.Ctx) {
+	one := primitive.ConsistencyLevelOne
+	q := &message.Query{Query: "INSERT INTO poison.t (a, b) VALUES (?, ?) /* left over from a failed encode */",
+		Options: &message.QueryOptions{PositionalValues: []*primitive.Value{primitive.NewValue([]byte("stale")), primitive.NewNullValue()}, SerialConsistency: &one}}
+	f := frame.NewFrame(primitive.ProtocolVersion(v), 1, q)
+	if compressed {
+		f.Header.Flags = f.Header.Flags.Add(primitive.HeaderFlagCompressed)
+	}
+	if err := codec.EncodeFrame(f, io.Discard); err == nil {
+		c.Count("poison_encode_unexpectedly_succeeded", 1)
+	} else {
+		c.Count("poison_encodes_refused", 1)
+	}
+}
+
+// chunkReader returns at most n bytes per Read.
+type chunkReader struct {
+	r io.Reader
+	n int
+}
+
+func (c *chunkReader) Read(p []byte) (int, error) {
+	if len(p) > c.n {
+		p = p[:c.n]
+	}
+	return c.r.Read(p)
+}
+
 type countingReader struct {
 	r io.Reader
 	n int
@@ -198,6 +230,9 @@ func streams(c *mon.Ctx, count int) {
 			flag := comp != "none" && v != ref.V5 && compressible(a.Msg.Opcode()) && r.Bool() // mixed compression
 			f := bridge.ToLib(a, flag, bridge.NewVariant(r))
 			before := stream.Len()
+			if r.Intn(3) == 0 {
+				poison(codec, v, flag, c)
+			}
 			if err := codec.EncodeFrame(f, &stream); err != nil {
 				return
 			}
@@ -235,17 +270,36 @@ func streams(c *mon.Ctx, count int) {
 			return
 		}
 		// walk 2: DecodeHeader + DiscardBody ; walk 3: DecodeRawFrame — both must consume exactly the declared length
-		for _, mode := range []string{"DiscardBody", "DecodeRawFrame", "DiscardBody-nonseekable"} {
+		for _, mode := range []string{"DiscardBody", "DecodeRawFrame", "DiscardBody-nonseekable", "DecodeRawFrame-chunked", "DecodeFrame-chunked"} {
 			var src io.Reader = bytes.NewReader(all)
 			if mode == "DiscardBody-nonseekable" {
 				src = struct{ io.Reader }{src}
+			}
+			if mode == "DecodeRawFrame-chunked" || mode == "DecodeFrame-chunked" {
+				src = &chunkReader{r: src, n: 1 + r.Intn(9)} // short reads, as a socket delivers them
 			}
 			cr := &countingReader{r: src}
 			off := 0
 			for j := 0; j < k; j++ {
 				var err error
-				if mode == "DecodeRawFrame" {
-					_, err = codec.DecodeRawFrame(cr)
+				if mode == "DecodeRawFrame" || mode == "DecodeRawFrame-chunked" {
+					var raw *frame.RawFrame
+					if raw, err = codec.DecodeRawFrame(cr); err == nil {
+						if f3, err3 := codec.ConvertFromRawFrame(raw); err3 != nil {
+							err = err3
+						} else if a3, _, err3 := bridge.FromLib(f3); err3 != nil || !ref.Equal(want[j], a3) {
+							c.Violation("stream/"+mode+"/frame-differs", det(fmt.Sprintf("%v %s", err3, ref.Diff(want[j], a3)), j))
+							return
+						}
+					}
+				} else if mode == "DecodeFrame-chunked" {
+					var f3 *frame.Frame
+					if f3, err = codec.DecodeFrame(cr); err == nil {
+						if a3, _, err3 := bridge.FromLib(f3); err3 != nil || !ref.Equal(want[j], a3) {
+							c.Violation("stream/"+mode+"/frame-differs", det(fmt.Sprintf("%v %s", err3, ref.Diff(want[j], a3)), j))
+							return
+						}
+					}
 				} else {
 					var h *frame.Header
 					if h, err = codec.DecodeHeader(cr); err == nil {
